@@ -96,6 +96,8 @@ type World struct {
 	G                  *genState
 	R                  *RelState
 	PendingVoted       int
+	Bundle             *txBundle    // non-nil while the sub-steps of a rel.bundle step are applied
+	pendingTruths      []*VoteTruth // per-message truths of the transaction being submitted
 	PendingHashes      int
 	JunkVotes          int
 	Tainted            bool
